@@ -52,7 +52,20 @@ func leafID(e error) int {
 	return id
 }
 
-func (t *etree) build() error {
+// build returns the same error VALUE for the same node: a node that occurs twice in a tree (a shared join) is one
+// Go value reachable along two paths
+func (t *etree) build() error { return t.buildMemo(map[*etree]error{}) }
+
+func (t *etree) buildMemo(memo map[*etree]error) error {
+	if e, ok := memo[t]; ok {
+		return e
+	}
+	e := t.build1(memo)
+	memo[t] = e
+	return e
+}
+
+func (t *etree) build1(memo map[*etree]error) error {
 	if t.kids == nil {
 		tag := "leaf-" + strconv.Itoa(t.leaf)
 		switch t.leaf % 7 {
@@ -71,7 +84,7 @@ func (t *etree) build() error {
 	}
 	errs := make([]error, len(t.kids))
 	for i, k := range t.kids {
-		errs[i] = k.build()
+		errs[i] = k.buildMemo(memo)
 	}
 	return errors.Join(errs...)
 }
@@ -280,5 +293,28 @@ func famAll(o *Out, r R, tier string) {
 	}
 	for i := 0; i < nrand; i++ {
 		emit(randTree(r, 5))
+	}
+	// deep chains (nesting depth up to 40, to the left and to the right) and joins shared between two places
+	for _, depth := range []int{7, 8, 9, 10, 15, 16, 17, 18, 31, 32, 33, 40} {
+		for _, left := range []bool{true, false} {
+			t := &etree{kids: []*etree{{}, {}}}
+			for d := 1; d < depth; d++ {
+				if left {
+					t = &etree{kids: []*etree{t, {}}}
+				} else {
+					t = &etree{kids: []*etree{{}, t}}
+				}
+			}
+			emit(t)
+		}
+	}
+	for i := 0; i < 12; i++ {
+		shared := randTree(r, 2)
+		if shared.kids == nil {
+			shared = &etree{kids: []*etree{{}, {}}}
+		}
+		emit(&etree{kids: []*etree{{kids: []*etree{shared, {}}}, {kids: []*etree{{}, shared}}}})
+		emit(&etree{kids: []*etree{shared, shared}})
+		emit(&etree{kids: []*etree{shared, {kids: []*etree{{kids: []*etree{shared}}}}, {}}})
 	}
 }
